@@ -642,5 +642,10 @@ def run(ctx, ck):
                                                ('mininec.Insulation_Load.impedance', 'zins')}, rule='R-CACHE.owner-only')
     ck.floor('per-object caches of distributed loads', n_, 2)
     ck.rule('R-CACHE.owner-only', 'cached per-length impedance depends only on its owner or is keyed')
+    # every solve starts from a freshly filled matrix: the loads are added to the diagonal with +=, a matrix
+    # kept from the previous solve would carry them twice (rule shared with C14)
+    ck.rule('R-FRESH.solve-order', 'compute(): fill -> loads -> rhs -> solve, each exactly once on every path')
+    from .C14 import check_solve_order
+    check_solve_order(ctx, ck, rule='R-FRESH.solve-order')
     ck.undecided += ['Bessel-function asymptote / closed-form wire impedance values',
                      'numerical equality of loaded and unloaded feed impedance']
